@@ -15,6 +15,12 @@ TEXTS = ["x", "a b", "<&>\"'", "éß", "日本", "\U0001F600", " lead", "trail "
          "true", "42", "urn:x:y", "2020-01-01T00:00:00Z", "a\tb", "'", '"q"', "x" * 40]
 
 
+# legal but non-canonical lexical forms of the simple types attributes have (boolean, integers, dateTime, duration, base64, anyURI):
+# an attribute is TEXT to the object layer; whatever was written must be what is read back
+LEXICAL = ["1", "0", "false", "TRUE", "+1", "01", "-0", "1.0", "1e0", " 1 ", "2020-01-01T00:00:00.000Z", "2020-01-01T00:00:00+00:00",
+           "2020-1-1T0:0:0Z", "PT24H", "P1D", "P0Y", "AQ==", "AQ==\n", "aq==", "HTTP://Example.ORG/a/../b", "urn:X:y", "%41"]
+
+
 class Gen(object):
     def __init__(self, rng, T=None, skip_members=(), skip_classes=()):
         self.T = T or translate_schema.tables()
@@ -33,7 +39,12 @@ class Gen(object):
     def attr_text(self):
         """value of an attribute: now and then the empty string (a declared attribute that is '' is still an
         attribute: it must be written and read back as '')"""
-        return "" if self.rng.random() < 0.08 else self.rng.choice(TEXTS)
+        x = self.rng.random()
+        if x < 0.08:
+            return ""
+        if x < 0.30:
+            return self.rng.choice(LEXICAL)      # spellings a typed reader might be tempted to canonicalise
+        return self.rng.choice(TEXTS)
 
     # ---- foreign content
     def foreign_elem(self, depth=1, known_tag=None):
